@@ -423,7 +423,7 @@ fn all_literals(ctx: &Ctx, name: &str, st: &mut Local, f: Sink) {
         return;
     }
     let mut idx = 0;
-    for variant in 0..6 {
+    for variant in 0..7 {
         let i = idx;
         idx += 1;
         if ctx.sel.mine(i) {
@@ -446,6 +446,18 @@ fn all_literals(ctx: &Ctx, name: &str, st: &mut Local, f: Sink) {
         }
         let blk = if variant == 0 {
             Block::Fixed { toks }
+        } else if variant == 6 {
+            // more than 255 codes of one length: all 256 literals and one length symbol at 9 bits, a chain
+            // of shorter length symbols, EOB and one more symbol at 10 bits
+            let mut ll = vec![9u8; 256];
+            ll.push(10); // EOB
+            ll.extend_from_slice(&[2, 3, 4, 5, 6, 7, 8, 10, 9]); // 257..=265
+            assert_eq!(kraft(&ll), 1 << 15);
+            for (k, len) in [3u16, 4, 5, 6, 7, 8, 9, 10, 11].iter().enumerate() {
+                let _ = k;
+                toks.push(Tok::Ref { len: *len, dist: 1 + (*len % 2), irr: false });
+            }
+            Block::Dyn { hdr: header_from_lengths(&ll, &[1, 1]), toks }
         } else if variant >= 3 {
             // maximally skewed codes in three rotations: every literal gets a 15-bit code in one of them
             let used: Vec<usize> = (0..=256).collect();
@@ -463,7 +475,7 @@ fn all_literals(ctx: &Ctx, name: &str, st: &mut Local, f: Sink) {
         ctx.end();
     }
     let e = st.eng(name);
-    e.bound = "all 256 literals under the fixed code, a flat dynamic code, a skewed dynamic code and three rotations of a maximally skewed code (15-bit codes)".into();
+    e.bound = "all 256 literals under the fixed code, a flat dynamic code, a skewed dynamic code, three rotations of a maximally skewed code (15-bit codes) and a code with 257 symbols of one length".into();
     e.exhaustive = true;
 }
 
@@ -524,6 +536,7 @@ pub fn run_c07(ctx: &Ctx, st: &mut Local) {
     e3_dynspace(ctx, "E3", st, &mut f);
     e3_pairs(ctx, "E3pair", st, &mut f);
     e2_crossblock(ctx, "E2s", st, &mut f);
+    all_literals(ctx, "Lits", st, &mut f);
     let dists = if ctx.quick() { e4_quick_dists() } else { (1..=32768u32).map(|d| d as u16).collect() };
     e4_pairspace(ctx, "E4", &dists, st, &mut f);
     e5_devspace(ctx, "E5", &dev_specs(ctx), st, &mut f);
